@@ -113,6 +113,9 @@ package xsync
 //@   modifies allmem, tview, slotb, sloti, tbl, ridx, pos, clen, occ
 //@   oncall copyBucket: {C03,C11} source.current: arg0 == root(as(currenttable(), "*mapTable"), u64(i)) && arg1 == newTable
 //@   oncall addSizePlain: {C08,C11} recount: arg2 == lastret("copyBucket", 0) && arg0 == newTable
+//@   loop for.loop: iteration {C03,C11,C08} copy.every-bucket: i == athead(i) + 1 && itercalls("copyBucket") == 1 && itercalls("addSizePlain") == 1
+//@   loop for.loop: exit {C03,C11} copy.all-buckets: i >= tableLen
+//@   onstore Map.table: {C03,C08,C11} publish.constructed-table: newTable == lastret("newMapTable", 0)
 //@   loop for.loop: invariant shape: newTable != nil && tblShape(newTable) && tblShape(table) && table != nil && 0 <= i
 //@   ensures assumed private keeps: hint != 2 ==> mapRIx(m) && tview[tab(m)] == old(tview[tab(m)])
 //@   ensures {C13} monitor.no-lost-wakeup: monitorOK()
@@ -158,6 +161,7 @@ package xsync
 //@   modifies allmem, allghost
 //@   loop for.body: invariant cursor: b != nil && rootb == old(b) && destTable == old(destTable) && tblShape(destTable)
 //@   loop for.loop: invariant idx: 0 <= i && i <= 3 && b != nil && rootb == old(b) && destTable == old(destTable) && tblShape(destTable)
+//@   loop for.body: exit {C11,C03} copy.whole-chain: b.next == nil
 //@   loop for.loop: iteration {C08,C11} count.step: copied == athead(copied) + itercalls("appendToBucket")
 //@   loop for.loop: iteration {C08,C11,C03} copy.every-entry: itercalls("appendToBucket") <= 1 && ((itercalls("appendToBucket") == 1) == (athead(b.keys[i]) != nil))
 //@   oncall appendToBucket: {C11,C03} copy.entry: arg1 == b.keys[i] && arg1 != nil && arg2 == b.values[i]
@@ -278,6 +282,9 @@ package xsync
 //@   modifies allmem, tviewOf, slotbOf, slotiOf, tbl, ridx, pos, clen, occ
 //@   oncall copyBucketOf: {C04,C11} source.current: arg0 == rootO(as(currenttable(), "*mapOfTable"), u64(i)) && arg1 == newTable
 //@   oncall addSizePlain: {C08,C11} recount: arg2 == lastret("copyBucketOf", 0) && arg0 == newTable
+//@   loop for.loop: iteration {C04,C11,C08} copy.every-bucket: i == athead(i) + 1 && itercalls("copyBucketOf") == 1 && itercalls("addSizePlain") == 1
+//@   loop for.loop: exit {C04,C11} copy.all-buckets: i >= tableLen
+//@   onstore MapOf.table: {C04,C08,C11} publish.constructed-table: newTable == lastret("newMapOfTable", 0)
 //@   loop for.loop: invariant shape: newTable != nil && tblShapeOf(newTable) && tblShapeOf(table) && table != nil && 0 <= i
 //@   ensures assumed private keeps: hint != 2 ==> mapOfRIx(m) && tviewOf[tabOf(m)] == old(tviewOf[tabOf(m)])
 //@   ensures {C13} monitor.no-lost-wakeup: monitorOK()
@@ -324,6 +331,7 @@ package xsync
 //@   modifies allmem, allghost
 //@   loop for.body: invariant cursor: b != nil && rootb == old(b) && destTable == old(destTable) && tblShapeOf(destTable)
 //@   loop for.loop: invariant idx: 0 <= i && i <= 5 && b != nil && rootb == old(b) && destTable == old(destTable) && tblShapeOf(destTable)
+//@   loop for.body: exit {C11,C04} copy.whole-chain: b.next == nil
 //@   loop for.loop: iteration {C08,C11} count.step: copied == athead(copied) + itercalls("appendToBucketOf")
 //@   loop for.loop: iteration {C08,C11,C04} copy.every-entry: itercalls("appendToBucketOf") <= 1 && ((itercalls("appendToBucketOf") == 1) == (athead(b.entries[i]) != nil))
 //@   oncall appendToBucketOf: {C11,C04} copy.entry: arg1 == b.entries[i] && arg1 != nil
